@@ -130,6 +130,16 @@ def run(ctx):
     ctx.trusted = ["transcription of the vendor 0xC0 layout rows (Lua line cited per row)", "exact rationals stand for binary floats (halves, tenths)"]
     fn = ctx.fn(f"{SR}._parse")
     file = fn.module.rel
+    # the sensor-temperature decoder: StateResponse._parse_temperature, or - when it was moved out of the class - the function whose result
+    # _parse stores in indoor_temperature (kept as a function of its own, not seen through)
+    TEMPQ, toff = f"{SR}._parse_temperature", 1
+    if TEMPQ not in prog.funcs and prog.lookup_method(prog.cls(SR), "_parse_temperature") is None:
+        for n_ in ast.walk(fn.node):
+            if isinstance(n_, ast.Assign) and isinstance(n_.value, ast.Call) and any(isinstance(t_, ast.Attribute) and t_.attr == "indoor_temperature" for t_ in n_.targets):
+                r_ = prog.resolve_expr(fn.module, n_.value.func, fn.cls)
+                if r_ is not None and getattr(r_, "qual", None) in prog.funcs:
+                    TEMPQ, toff = r_.qual, (0 if r_.kind in ("function", "staticmethod") else 1)
+                    prog.extra_known = set(getattr(prog, "extra_known", ())) | {TEMPQ}
     s = summarize(prog, fn)
     self_p, pay_p = fn.params[0], fn.params[1]
     defaults = init_attrs(prog, prog.cls(SR))
@@ -156,7 +166,7 @@ def run(ctx):
             return payload_byte(k)
         if call_is(tm, "len") and strip(tm[2][0]) == ("param", pay_p):
             return LinV({"len": 1})
-        if call_is(tm, f"{SR}._parse_temperature"):
+        if call_is(tm, TEMPQ):
             return ("tempcall", tm)
         return None
 
@@ -165,6 +175,7 @@ def run(ctx):
     n_regions = 0
     seen_attr = set()
     temp_calls = {}
+    dec_scales = set()
     for pc, _t, node, rst in s.returns:
         terms = {}
         for a in attr_names:
@@ -201,10 +212,15 @@ def run(ctx):
                 if isinstance(v, tuple) and v and v[0] == "tempcall":
                     tc = v[1]
                     args = tc[2]
-                    a0 = be.ev(args[1]) if len(args) > 1 else None
-                    a1 = be.ev(args[2]) if len(args) > 2 else None
-                    a2 = be.ev(args[3]) if len(args) > 3 else None
-                    ok = norm_val(a0, be) == norm_val(LinV({raw: 1}), be) and norm_val(a1, be) == norm_val(LinV({tenths: Fraction(1, 10)}), be) \
+                    a0 = be.ev(args[toff]) if len(args) > toff else None
+                    a1 = be.ev(args[toff + 1]) if len(args) > toff + 1 else None
+                    a2 = be.ev(args[toff + 2]) if len(args) > toff + 2 else None
+                    # the tenths digit is handed over either as the digit or already scaled (digit / 10); the function is then checked for the
+                    # scale its call sites use
+                    sc_ = next((sc for sc in (Fraction(1, 10), Fraction(1)) if norm_val(a1, be) == norm_val(LinV({tenths: sc}), be)), None)
+                    if sc_ is not None:
+                        dec_scales.add(sc_)
+                    ok = norm_val(a0, be) == norm_val(LinV({raw: 1}), be) and sc_ is not None \
                         and norm_val(a2, be) == norm_val(Pred("fahrenheit"), be)
                     ctx.ob("C11.c", fn.qual, ok, f"{a} = _parse_temperature({raw}, {tenths}/10, fahrenheit)", func=fn.qual, file=file,
                            construct=f"self.{a} call-site binding", detail={"args": [repr(a0), repr(a1), repr(a2)]},
@@ -221,10 +237,13 @@ def run(ctx):
     ctx.count("temperature_call_sites", len(temp_calls))
 
     # ---------------------------------------------------------------- C11.c _parse_temperature
-    pt = ctx.fn(f"{SR}._parse_temperature")
+    pt = ctx.fn(TEMPQ)
     ps = summarize(prog, pt)
-    dp, decp, fp = pt.params[1], pt.params[2], pt.params[3]
+    dp, decp, fp = pt.params[toff], pt.params[toff + 1], pt.params[toff + 2]
     tdom = {"d": [(0, 255)], "tenths": [(0, 9)]}
+    if len(dec_scales) > 1:
+        raise AnalysisError(f"{pt.qual}: call sites pass the tenths digit in different scales")
+    dec_scale = next(iter(dec_scales)) if dec_scales else Fraction(1, 10)
     T_FORM = LinV({"d": Fraction(1, 2)}, -25)
     import math
     from ..bits import Region as _Region
@@ -234,7 +253,7 @@ def run(ctx):
         if tm == ("param", dp):
             return LinV({"d": 1})
         if tm == ("param", decp):
-            return LinV({"tenths": Fraction(1, 10)})
+            return LinV({"tenths": dec_scale})
         if tm == ("param", fp):
             return Pred("fahrenheit")
         if call_is(tm, "int") and len(tm[2]) == 1:
